@@ -514,31 +514,47 @@ void SQuIDS::Evolve(double dt){
     // initial time
     
     // ODE system error control
-    gsl_odeiv2_driver* d = gsl_odeiv2_driver_alloc_y_new(&sys,step,h,abs_error,rel_error);
-    gsl_odeiv2_driver_set_hmin(d,h_min);
-    gsl_odeiv2_driver_set_hmax(d,h_max);
-    gsl_odeiv2_driver_set_nmax(d,0);
+    //(owned, so that it is also released when a user supplied term throws during the integration)
+    std::unique_ptr<gsl_odeiv2_driver,void (*)(gsl_odeiv2_driver*)>
+      d(gsl_odeiv2_driver_alloc_y_new(&sys,step,h,abs_error,rel_error),gsl_odeiv2_driver_free);
+    gsl_odeiv2_driver_set_hmin(d.get(),h_min);
+    gsl_odeiv2_driver_set_hmax(d.get(),h_max);
+    gsl_odeiv2_driver_set_nmax(d.get(),0);
     
     double* gsl_sys = system.get();
     
-    if(adaptive_step){
-      gsl_status = gsl_odeiv2_driver_apply(d, &t, t+dt, gsl_sys);
-    }else{
-      gsl_status = gsl_odeiv2_driver_apply_fixed_step(d, &t, dt/nsteps , nsteps , gsl_sys);
-    }
+    //during the integration estate points into arrays owned by the driver; however the
+    //integration ends it must alias state again before those arrays are released
+    auto restore_estate=[this](){
+      for(unsigned int ei = 0; ei < nx; ei++){
+        for(unsigned int i=0;i<nrhos;i++)
+          estate[ei].rho[i].SetBackingStore(&(system[ei*size_state+i*size_rho]));
+        if(nscalars>0)
+          estate[ei].scalar=&(system[ei*size_state+nrhos*size_rho]);
+      }
+    };
     
-    gsl_odeiv2_driver_free(d);
+    //Derive() stores every stage time in t, so GSL gets a clock of its own: after a failed
+    //step it holds the time the returned state belongs to, while t holds some stage time
+    double t_gsl=t;
+    try{
+      if(adaptive_step){
+        gsl_status = gsl_odeiv2_driver_apply(d.get(), &t_gsl, t+dt, gsl_sys);
+      }else{
+        gsl_status = gsl_odeiv2_driver_apply_fixed_step(d.get(), &t_gsl, dt/nsteps , nsteps , gsl_sys);
+      }
+    }catch(...){
+      restore_estate();
+      t=t_gsl;
+      throw;
+    }
+    restore_estate();
+    t=t_gsl;
+    d.reset();
+    
     if( gsl_status != GSL_SUCCESS ){
       throw std::runtime_error("SQUIDS::Evolve: Error in GSL ODE solver ("
                                +std::string(gsl_strerror(gsl_status))+")");
-    }
-    
-    //after evolving, make estate alias state again
-    for(unsigned int ei = 0; ei < nx; ei++){
-      for(unsigned int i=0;i<nrhos;i++)
-        estate[ei].rho[i].SetBackingStore(&(system[ei*size_state+i*size_rho]));
-      if(nscalars>0)
-        estate[ei].scalar=&(system[ei*size_state+nrhos*size_rho]);
     }
   }else{
     t+=dt;
